@@ -581,3 +581,97 @@ def c18_r7(ctx):
                 'row-count test (rows = regions x N) and per-region '
                 'contiguity test (labels == 1..N) must both be present',
                 key=fi.full + ' | tests present')
+
+
+# ---------------------------------------------------------------------------
+# C19.R7: the nominal temperature rises are read-only in the hot-spot module
+
+def c19_r7(ctx):
+    """(C19) the array of nominal rises returned by _get_peak_dt flows,
+    whole or as views (slices), through the helpers of hotspot.py into
+    calculate_temps.  No function on that flow may store into it or modify
+    it in place: the hot-spot temperatures must be built from the nominal
+    rises of the peak pin, unchanged."""
+    m = ctx.repo.mod('hotspot')
+    start = ctx.repo.func('hotspot', 'analyze')
+    tainted = {}          # function full name -> set of local names
+
+    def taint_of(fi, expr, names):
+        """Is expr the array / a view of it?"""
+        x = expr
+        while isinstance(x, ast.Subscript):
+            x = x.value
+        return isinstance(x, ast.Name) and x.id in names
+
+    work = []
+    seeds = {a.targets[0].id for a in ast.walk(start.node)
+             if isinstance(a, ast.Assign) and len(a.targets) == 1
+             and isinstance(a.targets[0], ast.Name)
+             and isinstance(a.value, ast.Call)
+             and call_name(a.value) == '_get_peak_dt'}
+    if not seeds:
+        raise AnalysisError('hotspot.analyze: _get_peak_dt result')
+    tainted[start.qual] = set(seeds)
+    work.append(start)
+    seen = set()
+    n = 0
+    while work:
+        fi = work.pop()
+        names = tainted[fi.qual]
+        key = (fi.qual, tuple(sorted(names)))
+        if key in seen:
+            continue
+        seen.add(key)
+        # local aliases / views
+        changed = True
+        while changed:
+            changed = False
+            for a in ast.walk(fi.node):
+                if isinstance(a, ast.Assign) and len(a.targets) == 1 and \
+                        isinstance(a.targets[0], ast.Name) and \
+                        a.targets[0].id not in names and \
+                        taint_of(fi, a.value, names):
+                    names.add(a.targets[0].id)
+                    changed = True
+        for st in ast.walk(fi.node):
+            tgt = None
+            if isinstance(st, ast.Assign):
+                for t in st.targets:
+                    if isinstance(t, ast.Subscript) and taint_of(fi, t, names):
+                        tgt = t
+            elif isinstance(st, ast.AugAssign) and not getattr(
+                    st, '_was_assign', False) and taint_of(
+                        fi, st.target, names):
+                tgt = st.target
+            if tgt is not None:
+                ctx.violation('C19.R7', fi, st,
+                              'the nominal temperature rises (`%s`) are '
+                              'modified in place: the hot-spot sum is then '
+                              'built from altered rises (the array is shared '
+                              'with the caller)' % _s(tgt),
+                              key='%s | store into nominal rises' % fi.full)
+        for c in ast.walk(fi.node):
+            if not isinstance(c, ast.Call):
+                continue
+            cn = call_name(c) or ''
+            callee = m.funcs.get(cn) if cn in m.funcs else None
+            if callee is None or callee.cls is not None:
+                continue
+            for k, a in enumerate(c.args):
+                if taint_of(fi, a, names) and k < len(callee.params):
+                    s_ = tainted.setdefault(callee.qual, set())
+                    if callee.params[k] not in s_:
+                        s_.add(callee.params[k])
+                    work.append(callee)
+            for kw in c.keywords:
+                if kw.arg in callee.params and taint_of(fi, kw.value, names):
+                    tainted.setdefault(callee.qual, set()).add(kw.arg)
+                    work.append(callee)
+        n += 1
+    reached = sorted(tainted)
+    if not {'_evaluate_hcf_expr', '_eval_expr', 'calculate_temps'} <= set(
+            reached):
+        raise AnalysisError('C19.R7: flow of the nominal rises reaches only '
+                            '%s' % reached)
+    ctx.ok('C19.R7', start, None, 'nominal rises read-only along %s'
+           % reached)
